@@ -180,6 +180,9 @@ pub struct Model {
     /// coverage cells: (kind, outcome, presence)
     pub cells: BTreeSet<(Kind, u16, u8)>,
     pub state_dependent: u64,
+    /// a frame whose execution the statements leave open was executed: keys the
+    /// model has never heard of may exist now
+    pub wild: bool,
 }
 
 fn pres_code(p: Presence) -> u8 {
@@ -205,6 +208,7 @@ impl Model {
             violations: Vec::new(),
             cells: BTreeSet::new(),
             state_dependent: 0,
+            wild: false,
         }
     }
 
@@ -325,6 +329,11 @@ impl Model {
             }
             Presence::Absent => {
                 let why = self.gone.get(key).copied().unwrap_or(Gone::Never);
+                if self.wild && matches!(why, Gone::Never | Gone::Lost) {
+                    // created by a frame the model could not interpret
+                    self.mark_unknown(key);
+                    return;
+                }
                 let (prop, clause) = match why {
                     Gone::Deleted => ("C08", "present-after-delete"),
                     Gone::Flushed => ("C08", "present-after-flush"),
@@ -454,6 +463,7 @@ impl Model {
         for it in self.items.values_mut() {
             it.unknown = true;
         }
+        self.wild = true;
     }
 
     pub fn mark_unknown(&mut self, key: &[u8]) {
